@@ -175,7 +175,7 @@ def fmtSVal : SVal → String
   | .batch f t g a => s!"B{fmtB f} {fmtRaw t} {fmtList (g.map fmtGridTag)} {a}"
   | .image f t g a => s!"I{fmtB f} {fmtRaw t} {fmtGridTag g} {a}"
 
-def fmtErr : ErrKind → String
+private def fmtErr : ErrKind → String
   | .torch => "err:torch"
   | .dispatch => "err:dispatch"
   | .badop => "bad-op:not-applicable"
